@@ -415,10 +415,17 @@ def run(ctx):
             why7 = 'the mapping is not sized lock_size_ mutexes'
         if ok7:
             mk = [i for i in cf.calls() if q.short_of(cf.callee(i) or '') == 'create_mutex']
-            shared_mk = [i for i in mk if cf.const_value(cf.args(i)[1]) == 1 and any(model.strip_targs(x).endswith('session_file_storage::locks_') for x in cf.subtree_refs(cf.args(i)[0]))]
+            def shared_arg(i):
+                a1 = cf.args(i)[1]
+                if cf.const_value(a1) == 1:
+                    return True
+                v_ = cf.ref_of(a1)
+                # the flag that decided to map the shared table: the mapping exists only where it is true
+                return bool(v_) and v_.startswith('v:') and cf.only_through(mm[0], cf.gate_edges(lambda atom, pol: cf.ref_of(atom) == v_ and pol is True))
+            shared_mk = [i for i in mk if shared_arg(i) and any(model.strip_targs(x).endswith('session_file_storage::locks_') for x in cf.subtree_refs(cf.args(i)[0]))]
             lp = [L for i in shared_mk for L in q.enclosing_loops(cf, i)]
             cl = q.counting_loop(cf, lp[0]) if len(lp) == 1 else None
-            ok7 = len(shared_mk) == 1 and q.before(cf, mm[0], shared_mk[0]) and cl is not None and cl['start'] == 0 and cl['step'] == 1 and cl['op'] == '<' and \
+            ok7 = len(shared_mk) == 1 and (q.before(cf, mm[0], shared_mk[0]) or (q.reaches(cf, mm[0], shared_mk[0]) and not q.reaches(cf, shared_mk[0], mm[0]))) and cl is not None and cl['start'] == 0 and cl['step'] == 1 and cl['op'] == '<' and \
                 any(model.strip_targs(x).endswith('session_file_storage::lock_size_') for x in cf.subtree_refs(cl['bound']))
             why7 = 'not every mutex of the shared table is created process-shared'
     ctx.check(ok7, R7, 'session_file_storage():mutex-table-shared-between-processes', why7, cf.where)
